@@ -6,6 +6,7 @@
    event log. *)
 From Coq Require Import NArith ZArith List Bool.
 From Srtp Require Import Util Constants World Rtp Rtcp RejectProofs.
+Import ListNotations.
 Local Open Scope Z_scope.
 
 (* whatever the packet bytes, the session state and the stream table: a call that returns
